@@ -5,6 +5,7 @@ import (
 	"encoding/json"
 	"fmt"
 	"os"
+	"runtime"
 
 	"github.com/scigolib/hdf5/internal/zzverif/dump"
 	"github.com/scigolib/hdf5/internal/zzverif/ev"
@@ -39,6 +40,43 @@ func main() {
 		fmt.Printf("open: %+v\n", d.OpenRes)
 		for _, o := range d.Objects {
 			fmt.Println(o.Logical())
+		}
+		return
+	}
+	// worker for OS-level fault injection (C17): vcheck dumpjson <file.h5> <out.json> dumps the
+	// file through the public reader on one locked OS thread, so that strace's per-thread
+	// call counter addresses exactly the k-th pread64 of the dump.
+	if len(os.Args) >= 4 && os.Args[1] == "dumpjson" {
+		runtime.GOMAXPROCS(1)
+		runtime.LockOSThread()
+		d := dump.File(os.Args[2], dump.Options{MaxElems: 1 << 22})
+		b, _ := json.Marshal(d)
+		if err := os.WriteFile(os.Args[3], b, 0o644); err != nil {
+			fmt.Println(err)
+			os.Exit(2)
+		}
+		return
+	}
+	// worker for OS-level write fault injection (C17): vcheck scriptjson <script.json> <out.h5> <res.json>
+	// runs the script on one locked OS thread and stores the per-call results.
+	if len(os.Args) >= 5 && os.Args[1] == "scriptjson" {
+		runtime.GOMAXPROCS(1)
+		runtime.LockOSThread()
+		b, err := os.ReadFile(os.Args[2])
+		if err != nil {
+			fmt.Println(err)
+			os.Exit(2)
+		}
+		var s hx.Script
+		if err := json.Unmarshal(b, &s); err != nil {
+			fmt.Println(err)
+			os.Exit(2)
+		}
+		e := hx.Run(os.Args[3], &s)
+		out, _ := json.Marshal(map[string]any{"res": e.Res, "close": e.CloseRes})
+		if err := os.WriteFile(os.Args[4], out, 0o644); err != nil {
+			fmt.Println(err)
+			os.Exit(2)
 		}
 		return
 	}
